@@ -24,21 +24,14 @@ open Fs Fs.Ref Fs.Posix Fs.MemLemmas Fs.OsLemmas
 set_option linter.unusedSimpArgs false
 set_option linter.unusedVariables false
 
-/-! ### the excluded classes -/
-
-/-- `openbin` with a mode string that `Mode.validate_bin` accepts (so the reference and MemoryFS
-act on it) but Python's `io.open` rejects with `ValueError`: more than one of `r w x a`, or a
-repeated character (`"rw"`, `"wa"`, `"r++"`, `"wbb"`).  Found by this proof; open finding
-`findings/C01-osfs-openbin-multimode.md`. -/
-def multiMode (op : Op) : Prop :=
-  match op with
-  | .openbin _ m => (parseBinMode m).isSome = true ∧ (ioOpenFlags (platformBin m)).isSome = false
-  | _ => False
+/-! ### the excluded class -/
 
 /-- the calls in which OSFS is known to deviate from the contract: `movedir` into a proper ancestor
-of the source (base-class `move_dir`, shared with MemoryFS: `MemRefines.knownDeviation`) and
-`openbin` with a multi-mode string. -/
-def knownDeviation (op : Op) : Prop := MemRefines.knownDeviation op ∨ multiMode op
+of the source — base-class `move_dir`, shared with MemoryFS: exactly `MemRefines.knownDeviation`.
+(A second class, `openbin` with a mode string `Mode.validate_bin` accepted and `io.open` rejected, was
+found by this proof and repaired in `/repo` — `fix: Mode.validate rejects the mode strings io.open
+rejects` —: see `os_openbin_multimode_repaired`.) -/
+def knownDeviation (op : Op) : Prop := MemRefines.knownDeviation op
 
 /-! ### from per-operation agreement to the refinement statement -/
 
@@ -165,8 +158,7 @@ theorem os_refines_ref (s : State) (op : Op) (hc : s.closed = false)
     ((Ref.step s op).2.isOk = true → Os.step s op = Ref.step s op) ∧
     (∀ e, (Os.step s op).2 = .err e → e ∈ adm s op ∧ (Os.step s op).1 = s) := by
   change MemRefines.Refines s op (Os.step s op) (Ref.step s op)
-  have hk1 : ¬ MemRefines.knownDeviation op := fun h => hk (Or.inl h)
-  have hk2 : ¬ multiMode op := fun h => hk (Or.inr h)
+  have hk1 : ¬ MemRefines.knownDeviation op := hk
   rcases QueryLemmas.op_cases op with rfl | ⟨p, m, rfl⟩ | ⟨p, hp, hno⟩ | ⟨p, q, hp⟩
   · exact refines_of_eq s _ _ hd hl rfl
   · cases hm : parseBinMode m with
@@ -174,11 +166,7 @@ theorem os_refines_ref (s : State) (op : Op) (hc : s.closed = false)
       apply refines_of_eq s _ _ hd hl
       rw [os_step_badmode s p m hm, QueryLemmas.step_openbin s p m hc, hm]; rfl
     | some md =>
-      have hio : ioModeOk m := by
-        unfold ioModeOk
-        cases hf : ioOpenFlags (platformBin m) with
-        | some fl => rfl
-        | none => exact absurd ⟨by simp [hm], by simp [hf]⟩ hk2
+      have hio : ioModeOk m := io_ok_of_parse m md hm
       cases hv : validate p with
       | err e =>
         apply refines_of_eq s _ _ hd hl
@@ -641,7 +629,7 @@ theorem copy2_is_unwrapped : ∀ e, Os.conv "copy" "shutil.copy2" e = .Leak := b
 
 example : ∃ s op, s.closed = false ∧ s.root.isDir = true ∧ s.root.wf = true ∧ ¬ knownDeviation op ∧
     (Ref.step s op).2 ≠ .err .OperationFailed :=
-  ⟨State.empty, .makedir "a".toList false, rfl, rfl, rfl, by rintro (h | h) <;> exact h, by decide⟩
+  ⟨State.empty, .makedir "a".toList false, rfl, rfl, rfl, fun h => h, by decide⟩
 
 /-- `listdir("f/g")` below the file `f`: `ENOTDIR`, directory flavour → DirectoryExpected -/
 example : Site.errno (.dir [("f".toList, .file [])]) ["f".toList, "g".toList] .listdir = some .ENOTDIR ∧
@@ -681,19 +669,20 @@ theorem os_movedir_ancestor_counterexample :
     fileAt (Ref.step s (.movedir "a".toList "/".toList false)).1.root ["a".toList, "x".toList] = some [1] := by
   decide
 
-/-- the multi-mode deviation is real: `openbin("f", "rw")` on a tree holding the file `f` raises
-`ValueError` on OSFS (from `io.open`), while the reference (and MemoryFS) truncate the file; the
-mode is one `Mode.validate_bin` accepts, so `ValueError` is not in `adm` either -/
-theorem os_openbin_multimode_counterexample :
-    let t : Node := .dir [("f".toList, .file [1])]
-    let s : State := { root := t, closed := false }
-    (Os.step s (.openbin "f".toList "rw".toList)).2 = .err .ValueError ∧
-    (Ref.step s (.openbin "f".toList "rw".toList)).2 = .ok .unit ∧
-    fileAt (Ref.step s (.openbin "f".toList "rw".toList)).1.root ["f".toList] = some [] ∧
-    Err.ValueError ∉ adm s (.openbin "f".toList "rw".toList) ∧
-    multiMode (.openbin "f".toList "rw".toList) := by
-  refine ⟨by decide, by decide, by decide, by decide, ?_⟩
-  exact ⟨by decide, by decide⟩
+/-- REPAIRED (was `os_openbin_multimode_counterexample`: `openbin("f", "rw")` raised `io.open`'s
+`ValueError` on OSFS while the reference truncated the file).  Since `Mode.validate` has `io.open`'s
+two rules, every mode string `Mode.validate_bin` accepts is one `io.open` accepts — for all
+strings — so `OSFS.openbin` can no longer fail where the reference acts; and on the old witness both
+now report the documented `ValueError`, which is in `adm`, and leave the file alone. -/
+theorem os_openbin_multimode_repaired :
+    (∀ (m : Str) (md : Mode), parseBinMode m = some md → (ioOpenFlags (platformBin m)).isSome = true) ∧
+    (let t : Node := .dir [("f".toList, .file [1])]
+     let s : State := { root := t, closed := false }
+     (Os.step s (.openbin "f".toList "rw".toList)).2 = .err .ValueError ∧
+     (Ref.step s (.openbin "f".toList "rw".toList)).2 = .err .ValueError ∧
+     fileAt (Os.step s (.openbin "f".toList "rw".toList)).1.root ["f".toList] = some [1] ∧
+     Err.ValueError ∈ adm s (.openbin "f".toList "rw".toList)) := by
+  refine ⟨io_ok_of_parse, by decide, by decide, by decide, by decide⟩
 
 /-! ### regression theorems for defects that were fixed in fs/osfs.py -/
 
@@ -740,8 +729,7 @@ theorem os_copy_onto_directory_rejected (s : State) (sp dp : Str) (o : Bool) (ds
       · simp only [step2] at h
         repeat' split at h
         all_goals simp_all [fail, upd, done]
-  have hk : ¬ knownDeviation (.copy sp dp o) := by
-    rintro (h | h) <;> exact h
+  have hk : ¬ knownDeviation (.copy sp dp o) := fun h => h
   obtain ⟨h1, _, h3⟩ := os_refines_ref s _ hc hd hwf hk hl
   rw [hfail] at h1
   cases hos : Os.step s (.copy sp dp o) with
